@@ -178,6 +178,13 @@ func checkC16(c c16Case) error {
 				if err := ver.Verify(msg, sig2); err != nil {
 					return finding("valid-signature-rejected", "built-in verifier rejects a valid fixed-width signature: %v", err)
 				}
+				// the same at message level: malformed re-spellings of this valid signature inside a COSE_Sign1
+				// and inside a two-signer COSE_Sign are rejected with a verification error there as well
+				if !c.Wrapped {
+					if err := c16MessageLevel(c, priv, alg); err != nil {
+						return err
+					}
+				}
 				if zr || zs {
 					stats.Class("native/leading-zero-half")
 					stats.NTBytes([]byte("native"), sig)
@@ -295,6 +302,70 @@ func checkC16(c c16Case) error {
 		}
 	}
 	stats.Class(fmt.Sprintf("curve/%d/%s", c.Curve, refcose.AlgName(c.Alg)))
+	return nil
+}
+
+// c16MessageLevel signs real messages with the key and offers malformed forms of the signature through
+// Sign1Message.Verify and SignMessage.Verify (second of two signers).
+func c16MessageLevel(c c16Case, priv *ecdsa.PrivateKey, alg cose.Algorithm) error {
+	sg, err := cose.NewSigner(alg, priv)
+	if err != nil {
+		return finding("newsigner", "%v", err)
+	}
+	ver, err := cose.NewVerifier(alg, &priv.PublicKey)
+	if err != nil {
+		return finding("newverifier", "%v", err)
+	}
+	edKM := refcose.KeyMat{Alg: refcose.AlgEdDSA, D: rc.Hex("c16-first-signer-seed-32-bytes!!!")}
+	edS, _ := libSigner(edKM, false)
+	edV, _ := libVerifier(edKM, false)
+	rnd := refcose.NewEntropy(c.Msg)
+	hdr := func(a cose.Algorithm) cose.Headers {
+		return cose.Headers{Protected: cose.ProtectedHeader{int64(1): a}, Unprotected: cose.UnprotectedHeader{}}
+	}
+	m1 := &cose.Sign1Message{Headers: hdr(alg), Payload: append([]byte("c16 "), c.Msg...)}
+	if err := m1.Sign(rnd, nil, sg); err != nil {
+		return finding("native-sign-fails", "%v", err)
+	}
+	sm := &cose.SignMessage{Headers: cose.Headers{Protected: cose.ProtectedHeader{}}, Payload: m1.Payload,
+		Signatures: []*cose.Signature{{Headers: hdr(cose.AlgorithmEdDSA)}, {Headers: hdr(alg)}}}
+	if err := sm.Sign(rnd, nil, edS, sg); err != nil {
+		return finding("native-sign-fails", "%v", err)
+	}
+	if err := m1.Verify(nil, ver); err != nil {
+		return finding("valid-signature-rejected", "Sign1: %v", err)
+	}
+	if err := sm.Verify(nil, edV, ver); err != nil {
+		return finding("valid-signature-rejected", "COSE_Sign: %v", err)
+	}
+	for mi, slot := range []*[]byte{&m1.Signature, &sm.Signatures[1].Signature} {
+		good := append([]byte{}, (*slot)...)
+		n := len(good) / 2
+		r, s := new(big.Int).SetBytes(good[:n]), new(big.Int).SetBytes(good[n:])
+		der, _ := asn1.Marshal(struct{ R, S *big.Int }{r, s})
+		forms := map[string][]byte{
+			"der": der, "zero-appended": append(append([]byte{}, good...), 0), "truncated": good[:len(good)-1],
+			"zero-extended-halves": append(append([]byte{0}, good[:n]...), append([]byte{0}, good[n:]...)...),
+			"r-zero-extended":      append([]byte{0}, good...), "other-curve-width": append(make([]byte, 0, 132), make([]byte, map[int]int{32: 96, 48: 132, 66: 64}[n])...),
+		}
+		for name, f := range forms {
+			*slot = f
+			var verr error
+			if mi == 0 {
+				verr = m1.Verify(nil, ver)
+			} else {
+				verr = sm.Verify(nil, edV, ver)
+			}
+			if verr == nil {
+				return finding("non-fixed-width-accepted/"+formClass(name), "message level (%d): form %q of a valid signature is accepted", mi, name)
+			}
+			if !errors.Is(verr, cose.ErrVerification) {
+				return finding("wrong-error-class", "message level (%s): form %q (%d bytes, fixed width %d) is rejected with %q, which is not a verification error", []string{"Sign1Message.Verify", "SignMessage.Verify, second signer"}[mi], name, len(f), 2*n, verr)
+			}
+		}
+		*slot = good
+	}
+	stats.Class("native/message-level-forms")
 	return nil
 }
 
